@@ -62,6 +62,8 @@ ASSUMPTIONS = [
 ]
 
 _P = {}
+# format(x, spec) / f"{x:spec}" with a strftime spec (any spec containing '%' is a strftime spec, flags and colon forms included)
+FSPEC = ("%Y-%m-%d %H:%M", "%:z", "%-d/%-m", "%_H|%^a", "%%", "%e")
 STRF = ("%Y-%m-%dT%H:%M:%S.%f%z", "%a %A %b %B %d %j %U %W %w %y %p %I", "%c|%x|%X|%Z|%%", "%G-%V-%u %H:%M:%S %z %Z")
 
 
@@ -141,12 +143,13 @@ def _unary(x):
           lambda: (lambda t: (t.hour, t.minute, t.second, t.microsecond, t.tzinfo))(x.timetz()),
           lambda: hash(x), lambda: (x.year, x.month, x.day, x.hour, x.minute, x.second, x.microsecond, x.fold, x.tzinfo)]
     fs += [(lambda fmt: (lambda: x.strftime(fmt)))(fmt) for fmt in STRF]
+    fs += [(lambda fmt: (lambda: format(x, fmt)))(fmt) for fmt in FSPEC]
     return [_safe(f) for f in fs]
 
 
 UNARY_NAMES = ["isoformat", "isoformat(' ','seconds')", "isoformat(timespec=ms)", "timetuple", "utctimetuple", "toordinal", "weekday",
                "isoweekday", "isocalendar", "timestamp", "utcoffset", "tzname", "dst", "ctime", "date()", "time()", "timetz()",
-               "hash", "fields"] + ["strftime(%r)" % f for f in STRF]
+               "hash", "fields"] + ["strftime(%r)" % f for f in STRF] + ["format(x, %r)" % f for f in FSPEC]
 # against the zoneinfo/datetime.timezone counterpart: tzinfo objects differ; datetime.timezone names a fixed offset
 # "UTC+01:00" and has dst() None where FixedTimezone says "+01:00" and timedelta(0)
 NB_SKIP_ALWAYS = {"fields", "time()", "timetz()"}
@@ -471,7 +474,8 @@ def _o_date(op):
     pa, pb = p.Date(na.year, na.month, na.day), p.Date(nb.year, nb.month, nb.day)
     fs = [lambda x: x.isoformat(), lambda x: x.timetuple(), lambda x: x.toordinal(), lambda x: x.weekday(), lambda x: x.isoweekday(),
           lambda x: tuple(x.isocalendar()), lambda x: x.ctime(), lambda x: hash(x), lambda x: (x.year, x.month, x.day),
-          lambda x: x.strftime("%Y-%m-%d %a %A %b %B %j %U %W %G-%V-%u %c|%x")]
+          lambda x: x.strftime("%Y-%m-%d %a %A %b %B %j %U %W %G-%V-%u %c|%x"),
+          lambda x: format(x, "%-d/%-m"), lambda x: format(x, "%e|%^a"), lambda x: f"{x:%Y-%m-%d}", lambda x: format(x, "%%")]
     for i, f in enumerate(fs):
         a, b = _safe(lambda: f(pa)), _safe(lambda: f(na))
         if a != b:
@@ -519,7 +523,8 @@ def _o_time(op):
     na, nb = dt.time(*fa, tzinfo=tz), dt.time(*fb, tzinfo=tz)
     fs = [lambda x: x.isoformat(), lambda x: x.isoformat("milliseconds"), lambda x: x.utcoffset(), lambda x: x.tzname(), lambda x: x.dst(),
           lambda x: hash(x), lambda x: (x.hour, x.minute, x.second, x.microsecond, x.tzinfo, x.fold),
-          lambda x: x.strftime("%H:%M:%S.%f %p %I %z %Z")]
+          lambda x: x.strftime("%H:%M:%S.%f %p %I %z %Z"),
+          lambda x: format(x, "%-H|%_M"), lambda x: format(x, "%:z"), lambda x: f"{x:%H:%M}", lambda x: format(x, "%%")]
     for i, f in enumerate(fs):
         a, b = _safe(lambda: f(pa)), _safe(lambda: f(na))
         if a != b:
